@@ -190,7 +190,12 @@ func Topo(kind string, shape PathShape, goFunc bool, root string, n int) *spec.S
 		addProc("A", in, []string{"out"}, nil, nil, pk)
 		addProc("H", in, []string{"out"}, nil, nil, spec.KCmd)
 		s.Procs = append(s.Procs, &spec.Proc{Name: "SS", Kind: spec.KSubStream})
-		g := addProc("G", []spec.PortDecl{{Name: "hdr"}, {Name: "parts", Join: "space"}}, []string{"out"}, nil, nil, spec.KCmd)
+		// Go visits the entries of a small map mostly in insertion order: both declaration orders are used
+		gports := []spec.PortDecl{{Name: "hdr"}, {Name: "parts", Join: "space"}}
+		if n%2 == 1 {
+			gports = []spec.PortDecl{{Name: "parts", Join: "space"}, {Name: "hdr"}}
+		}
+		g := addProc("G", gports, []string{"out"}, nil, nil, spec.KCmd)
 		g.Outs = []*spec.Out{{Port: "out", Pattern: "gathered.G.out"}}
 		addProc("K", in, []string{"out"}, nil, nil, spec.KCmd)
 		conn("src.out", "A.in")
